@@ -1,6 +1,6 @@
 (* C17 proofs about the ExportImport model: numerals print/parse round trip, export/import round
    trip, refusal of bad files, untouched non-empty databases, the second-start defect and its repair. *)
-From Coq Require Import ZArith NArith List String Ascii Bool Lia.
+From Coq Require Import ZArith NArith List String Ascii Bool Lia Permutation.
 From BHS Require Import Work ExportImport.
 Import ListNotations.
 Open Scope Z_scope.
@@ -459,9 +459,9 @@ Lemma find_height_nth : forall rows h k r,
 Proof.
   induction rows as [|r0 rows IH]; intros h k r Hh Hn; [destruct k; discriminate|].
   destruct Hh as [Hr Hrest]. destruct k as [|k].
-  - simpl in Hn. inversion Hn; subst. simpl. rewrite Hr.
+  - simpl in Hn. injection Hn as Hn. rewrite <- Hn. simpl. rewrite Hr.
     replace (h + 0) with h by lia. now rewrite Z.eqb_refl.
-  - simpl in Hn. simpl find. rewrite Hr.
+  - simpl in Hn. cbn [map find]. change (fst (mk r0)) with r0. rewrite Hr.
     assert (E : (h =? h + Z.of_nat (S k)) = false) by (apply Z.eqb_neq; lia). rewrite E.
     replace (h + Z.of_nat (S k)) with (h + 1 + Z.of_nat k) by lia.
     apply (IH (h + 1) k r Hrest Hn).
@@ -474,9 +474,79 @@ Proof.
   induction rows as [|r0 rows IH]; intros h c p Hh Hf; [discriminate|].
   destruct Hh as [Hr Hrest]. simpl in Hf. rewrite Hr in Hf.
   destruct (h =? c) eqn:E.
-  - apply Z.eqb_eq in E. inversion Hf; subst. exists 0%nat, r0. repeat split. simpl. lia.
+  - apply Z.eqb_eq in E. injection Hf as Hf. exists 0%nat, r0. repeat split; [now rewrite <- Hf|lia].
   - destruct (IH (h + 1) c p Hrest Hf) as [k [r (H1 & H2 & H3)]].
     exists (S k), r. repeat split; [exact H1|exact H2|lia].
+Qed.
+
+(* ------------------------------------------------------------------------------------------ *)
+(* the row selection of the export: ORDER BY height of the longest-chain rows                  *)
+
+Fixpoint ssorted (l : list xrow) : Prop :=
+  match l with
+  | [] => True
+  | a :: t => Forall (fun b => x_height a < x_height b) t /\ ssorted t
+  end.
+
+Lemma heights_from_above : forall rows h h', heights_from h rows -> h' < h ->
+  Forall (fun b => h' < x_height b) rows.
+Proof.
+  induction rows as [|r rows IH]; intros h h' Hh Hlt; [constructor|].
+  destruct Hh as [Hr Hrest]. constructor; [lia|]. apply (IH (h + 1)); [exact Hrest|lia].
+Qed.
+
+Lemma heights_from_ssorted : forall rows h, heights_from h rows -> ssorted rows.
+Proof.
+  induction rows as [|r rows IH]; intros h Hh; [exact I|].
+  destruct Hh as [Hr Hrest]. split; [|apply (IH _ Hrest)].
+  rewrite Hr. apply (heights_from_above rows (h + 1)); [exact Hrest|lia].
+Qed.
+
+Lemma ssorted_split : forall r1 a r2, ssorted (r1 ++ a :: r2) ->
+  ssorted (r1 ++ r2) /\ Forall (fun x => x_height x < x_height a) r1 /\
+  Forall (fun y => x_height a < x_height y) r2.
+Proof.
+  induction r1 as [|x r1 IH]; intros a r2 H.
+  - simpl in *. destruct H as [Hf Hs]. split; [exact Hs|split; [constructor|exact Hf]].
+  - simpl in H. destruct H as [Hf Hs]. destruct (IH a r2 Hs) as (H1 & H2 & H3).
+    apply Forall_app in Hf. destruct Hf as [Hf1 Hf2]. inversion Hf2 as [|y l Hxa Hf3]; subst.
+    split; [|split].
+    + simpl. split; [apply Forall_app; split; assumption|exact H1].
+    + constructor; [exact Hxa|exact H2].
+    + exact H3.
+Qed.
+
+Lemma insert_middle : forall r1 a r2,
+  Forall (fun x => x_height x < x_height a) r1 -> Forall (fun y => x_height a < x_height y) r2 ->
+  insert_by_height a (r1 ++ r2) = r1 ++ a :: r2.
+Proof.
+  induction r1 as [|x r1 IH]; intros a r2 H1 H2.
+  - simpl. destruct r2 as [|y r2]; [reflexivity|]. inversion H2 as [|y0 l Hy Hr]; subst.
+    simpl. assert (E : (x_height a <? x_height y) = true) by (apply Z.ltb_lt; exact Hy). now rewrite E.
+  - inversion H1 as [|x0 l Hx Hr]; subst. simpl.
+    assert (E : (x_height a <? x_height x) = false) by (apply Z.ltb_ge; lia). rewrite E.
+    now rewrite (IH a r2 Hr H2).
+Qed.
+
+Lemma insertion_sort_perm : forall l rows, Permutation l rows -> ssorted rows ->
+  fold_right insert_by_height [] l = rows.
+Proof.
+  induction l as [|a l IH]; intros rows Hp Hs.
+  - apply Permutation_nil in Hp. now subst.
+  - assert (Hin : In a rows) by (apply (Permutation_in a Hp); now left).
+    destruct (in_split a rows Hin) as [r1 [r2 Hrows]]. subst rows.
+    apply Permutation_cons_app_inv in Hp.
+    destruct (ssorted_split r1 a r2 Hs) as (H1 & H2 & H3).
+    simpl. rewrite (IH (r1 ++ r2) Hp H1). apply insert_middle; assumption.
+Qed.
+
+Theorem export_db_longest : forall (t : table) (rows : list xrow),
+  Permutation (map fst (filter (fun p => N.eqb (snd p) st_longest) t)) rows ->
+  heights_from 0 rows -> export_db t = export rows.
+Proof.
+  intros t rows Hp Hh. unfold export_db, longest_of, sort_by_height. f_equal.
+  apply insertion_sort_perm; [|apply (heights_from_ssorted rows 0 Hh)].
+  eapply Permutation_trans; [apply Permutation_sym, Permutation_rev|exact Hp].
 Qed.
 
 (* ------------------------------------------------------------------------------------------ *)
@@ -622,7 +692,7 @@ Theorem accepted_is_import : forall f t,
 Proof.
   intros f t H. destruct f as [f'|]; [|discriminate].
   destruct (import hashf f') as [rows|] eqn:Hi.
-  - exists f', rows. split; [reflexivity|]. split; [reflexivity|].
+  - exists f', rows. split; [reflexivity|]. split; [exact Hi|].
     destruct (List.length (db_insert_all [] rows) =? List.length rows)%nat eqn:El.
     + apply Nat.eqb_eq in El. pose proof (db_insert_all_full rows [] El) as Hfull. simpl in Hfull.
       assert (Ht : t = map mk rows).
@@ -700,6 +770,11 @@ Proof.
   destruct (start_fixed true [] f) as [b t]. simpl in *. now subst.
 Qed.
 
+Theorem fixed_same_otherwise : forall p t f,
+  fst (start_fixed p t f) = fst (start p t f) /\
+  (fst (start p t f) = true -> start_fixed p t f = start p t f).
+Proof. intros p t f. destruct (startup_fixed_agrees p t f) as (H1 & H2 & _). split; assumption. Qed.
+
 End Startup.
 End WithHash.
 
@@ -717,41 +792,59 @@ Definition demo_rec (nonce : string) : record :=
 Definition demo_bad_file : file :=
   [header_line; demo_rec "7"; demo_rec "8"; demo_rec "x"; demo_rec "9"]%string.
 
+Definition demo_left : table :=
+  Eval vm_compute in snd (startup demo_hash 2 0 8%N demo_genesis true [] (Some demo_bad_file)).
+
+Lemma demo_first_start :
+  startup demo_hash 2 0 8%N demo_genesis true [] (Some demo_bad_file) = (false, demo_left).
+Proof. vm_compute. reflexivity. Qed.
+
+Lemma demo_second_start :
+  startup demo_hash 2 0 8%N demo_genesis true demo_left (Some demo_bad_file) = (true, demo_left).
+Proof. vm_compute. reflexivity. Qed.
+
+(* the first batch (2 rows) is what stays behind *)
+Lemma demo_left_rows : map (fun p => x_height (fst p)) demo_left = [0; 1].
+Proof. vm_compute. reflexivity. Qed.
+
 Theorem second_start_refuted_batch :
   ~ second_start_sound (startup demo_hash 2 0 8%N demo_genesis).
 Proof.
-  intros H.
-  specialize (H (Some demo_bad_file) (snd (startup demo_hash 2 0 8%N demo_genesis true [] (Some demo_bad_file)))).
-  assert (H1 : startup demo_hash 2 0 8%N demo_genesis true [] (Some demo_bad_file) =
-               (false, snd (startup demo_hash 2 0 8%N demo_genesis true [] (Some demo_bad_file))))
-    by (vm_compute; reflexivity).
-  specialize (H H1 (Some demo_bad_file) (snd (startup demo_hash 2 0 8%N demo_genesis true [] (Some demo_bad_file)))).
-  assert (H2 : startup demo_hash 2 0 8%N demo_genesis true
-                 (snd (startup demo_hash 2 0 8%N demo_genesis true [] (Some demo_bad_file))) (Some demo_bad_file) =
-               (true, snd (startup demo_hash 2 0 8%N demo_genesis true [] (Some demo_bad_file))))
-    by (vm_compute; reflexivity).
-  specialize (H H2). rewrite H1 in H. discriminate.
+  unfold second_start_sound. intros H.
+  pose proof (H _ _ demo_first_start _ _ demo_second_start) as H3.
+  rewrite demo_first_start in H3. discriminate H3.
 Qed.
 
 (* with the real batch size: a well-formed file whose block at the checkpoint height has another
    hash is refused, but every row of it stays and is served by the next start *)
 Definition demo_good_file : file := [header_line; demo_rec "7"; demo_rec "8"]%string.
 
+Definition demo_left_all : table :=
+  Eval vm_compute in snd (startup demo_hash 500 1 4242%N demo_genesis true [] (Some demo_good_file)).
+
+Lemma demo_first_start_v :
+  startup demo_hash 500 1 4242%N demo_genesis true [] (Some demo_good_file) = (false, demo_left_all).
+Proof. vm_compute. reflexivity. Qed.
+
+Lemma demo_second_start_v :
+  startup demo_hash 500 1 4242%N demo_genesis true demo_left_all (Some demo_good_file) = (true, demo_left_all).
+Proof. vm_compute. reflexivity. Qed.
+
 Theorem second_start_refuted_validation :
   ~ second_start_sound (startup demo_hash 500 1 4242%N demo_genesis).
 Proof.
-  intros H.
-  set (t1 := snd (startup demo_hash 500 1 4242%N demo_genesis true [] (Some demo_good_file))).
-  assert (H1 : startup demo_hash 500 1 4242%N demo_genesis true [] (Some demo_good_file) = (false, t1))
-    by (vm_compute; reflexivity).
-  assert (H2 : startup demo_hash 500 1 4242%N demo_genesis true t1 (Some demo_good_file) = (true, t1))
-    by (vm_compute; reflexivity).
-  specialize (H _ _ H1 _ _ H2). rewrite H1 in H. discriminate.
+  unfold second_start_sound. intros H.
+  pose proof (H _ _ demo_first_start_v _ _ demo_second_start_v) as H3.
+  rewrite demo_first_start_v in H3. discriminate H3.
 Qed.
 
 Theorem second_start_refuted :
   ~ (forall hashf bsz ckh ckhash g, (0 < bsz)%nat -> second_start_sound (startup hashf bsz ckh ckhash g)).
 Proof. intros H. apply second_start_refuted_batch. apply H. lia. Qed.
+
+Theorem second_start_refuted_500 :
+  ~ (forall hashf ckh ckhash g, second_start_sound (startup hashf 500 ckh ckhash g)).
+Proof. intros H. apply second_start_refuted_validation. apply H. Qed.
 
 (* ------------------------------------------------------------------------------------------ *)
 (* the hypotheses are satisfiable: a concrete chain with extreme field values                  *)
@@ -761,7 +854,7 @@ Definition demo_chain : list xrow :=
                x_bits := 545259519; x_nonce := 7; x_work := 2; x_cum := 2 |} in
   let r1 := {| x_hash := 8001; x_prev := 8; x_height := 1; x_version := - 2 ^ 31; x_merkle := 2 ^ 256 - 1; x_ts := 0;
                x_bits := 4294967295; x_nonce := 0; x_work := 0; x_cum := 2 |} in
-  let r2 := {| x_hash := 12296968; x_prev := 8001; x_height := 2; x_version := 2 ^ 31 - 1; x_merkle := 0; x_ts := 2 ^ 32 - 1;
+  let r2 := {| x_hash := 4302968296; x_prev := 8001; x_height := 2; x_version := 2 ^ 31 - 1; x_merkle := 0; x_ts := 2 ^ 32 - 1;
                x_bits := 486604799; x_nonce := 4294967295; x_work := 4295032833; x_cum := 4295032835 |} in
   [r0; r1; r2].
 
@@ -775,7 +868,7 @@ Proof.
 Qed.
 
 Example demo_roundtrip :
-  startup demo_hash 2 2 12296968%N demo_genesis true [] (Some (export demo_chain)) =
+  startup demo_hash 2 2 4302968296%N demo_genesis true [] (Some (export demo_chain)) =
   (true, map (fun r => (r, st_longest)) demo_chain).
 Proof. vm_compute. reflexivity. Qed.
 
